@@ -252,13 +252,14 @@ O(id='NativeInteger_decode_ber.b14', props=['C03', 'C04', 'C05'], kind='bounded'
 IU = dict(harness='harness/h_integer_uper.c', units=[SK + 'INTEGER.c', SK + 'NativeInteger.c', SK + 'per_support.c'], include=[], backends=['sat'],
           fp_restrict=[(r'\.output\)$', ['vf_cb'])])
 IUC = ['--unwindset', 'asn_put_few_bits:3,asn_get_few_bits:4,uper_get_constrained_whole_number:4,uper_put_constrained_whole_number_u:4']
-O(id='NativeInteger_uper.constrained', props=['C01', 'C02', 'C08', 'C13'], kind='width', entry='h_NativeInteger_uper_constrained',
-  functions=['NativeInteger_encode_uper', 'INTEGER_encode_uper', 'NativeInteger_decode_uper', 'INTEGER_decode_uper'],
-  unwind=66, cbmc=IUC + ['--no-malloc-may-fail'], bound='every long triple (v, lb, ub) with lb <= ub, extensible or not; loops bounded by 8 octets / 64 bits',
-  min_props=100, timeout=1200, **IU)
+for _rb in (0, 1, 8, 16, 32, 64):
+    O(id='NativeInteger_uper.constrained.rb%d' % _rb, props=['C01', 'C02', 'C08', 'C13'], kind='bounded', entry='h_NativeInteger_uper_constrained',
+      defines=['VF_RB=%d' % _rb], functions=['NativeInteger_encode_uper', 'INTEGER_encode_uper', 'NativeInteger_decode_uper', 'INTEGER_decode_uper'],
+      unwind=66, cbmc=IUC + ['--no-malloc-may-fail'], bound='every long triple (v, lb, ub) whose range ub-lb needs exactly %d bits, extensible or not' % _rb,
+      min_props=100, timeout=900, tier='experimental', **IU)
 O(id='NativeInteger_uper.unconstrained', props=['C01', 'C02', 'C13'], kind='width', entry='h_NativeInteger_uper_unconstrained',
   functions=['NativeInteger_encode_uper', 'INTEGER_encode_uper', 'NativeInteger_decode_uper', 'INTEGER_decode_uper'],
-  unwind=26, cbmc=IUC + ['--no-malloc-may-fail'], bound='every long value', min_props=100, timeout=1200, **IU)
+  unwind=26, cbmc=IUC + ['--no-malloc-may-fail'], bound='every long value', min_props=100, timeout=1200, tier='experimental', **IU)
 O(id='NativeInteger_decode_uper.any', props=['C04', 'C14'], kind='bounded', entry='h_NativeInteger_decode_uper_any',
   functions=['NativeInteger_decode_uper', 'INTEGER_decode_uper'], unwind=26,
   cbmc=IUC + ['--malloc-may-fail', '--malloc-fail-null', '--memory-leak-check'],
@@ -269,6 +270,20 @@ O(id='NativeInteger_decode_uper.any', props=['C04', 'C14'], kind='bounded', entr
 O(id='static_state_scan', props=['C19'], kind='static', harness='tools/static_scan.py', entry='main', script='tools/static_scan.py',
   script_args=['c19_static_allow.json'], functions=[], no_canary=True,
   bound='whole skeleton library (all functions in skeletons/*.c): direct writes to / address escapes of static-lifetime non-const objects, by goto-program text; writes through pointers are not tracked')
+
+# ---------------------------------------------------------------- C08: constraints
+CT = dict(harness='harness/h_constraints.c', units=[SK + f for f in ('constraints.c', 'PrintableString.c', 'NumericString.c', 'VisibleString.c', 'IA5String.c')])
+for _w, _n in ((0, 'PrintableString'), (1, 'NumericString'), (2, 'VisibleString'), (3, 'IA5String')):
+    O(id=_n + '_constraint.sound', props=['C08', 'C04'], entry='h_alphabet_sound', defines=['VF_WHICH=%d' % _w], functions=[_n + '_constraint'],
+      proves=[_n + '_constraint'], loops=True, min_props=40, timeout=600, harness='harness/h_alphabet.c', units=[SK + _n + '.c'])
+    O(id=_n + '_constraint.exact6', props=['C08'], kind='bounded', entry='h_alphabet_exact', defines=['VF_WHICH=%d' % _w], functions=[_n + '_constraint'],
+      unwind=8, bound='strings of at most 6 characters, every character value', min_props=20, **CT)
+O(id='asn_check_constraints.errbuf', props=['C08'], kind='width', entry='h_check_constraints_errbuf', functions=['asn_check_constraints', '_asn_i_ctfailcb'],
+  proves=['asn_check_constraints', '_asn_i_ctfailcb'], stubs=['stubs/vsnprintf.c'], unwind=8,
+  bound='every error buffer length 0..24 (the buffer object has exactly that size); vsnprintf result arbitrary (including negative)',
+  trusted=['vsnprintf: stub with the C99 contract only (stubs/vsnprintf.c)'], min_props=20, **CT)
+O(id='BIT_STRING_constraint', props=['C08'], kind='width', entry='h_BIT_STRING_constraint', functions=['BIT_STRING_constraint'], proves=['BIT_STRING_constraint'],
+  unwind=4, bound='every (size, bits_unused, buf) combination (loop-free)', min_props=10, harness='harness/h_bitstring_constraint.c', units=[SK + 'BIT_STRING.c'])
 
 UNVERIFIED = {
  'C07': ['asn_encode_to_buffer / asn_encode_to_new_buffer / uper_encode_to_buffer / uper_encode_to_new_buffer with a UPER type encoder: obligations exist (tier experimental) but do not discharge (symbolic-length memcpy of the 32-octet bit scratch space runs out of memory); asn_encode with UPER is covered',
